@@ -255,7 +255,7 @@ func checkC06(c *Ctx) {
 		r.Func(fk(fn))
 		construct := fk(fn) + ": t.owner = <new owner>"
 		for _, oc := range ocs {
-			ok, _ := core.GuardedBy(fn, st, successGuard(oc))
+			ok := c.afterSuccessOf(fn, oc, st)
 			r.Check(ok, "C06.2-transfer-order", construct+" after Topics.OwnerChange succeeded", c.pos(st), "", "cached owner changes without the stored owner having been changed successfully")
 		}
 		// the previous owner's update
@@ -263,7 +263,7 @@ func checkC06(c *Ctx) {
 			if !core.IsFieldLoad(owner)(s.user) {
 				continue
 			}
-			ok, _ := core.GuardedBy(fn, st, successGuard(s.call))
+			ok := c.afterSuccessOf(fn, s.call, st)
 			r.Check(ok, "C06.2-transfer-order", construct+" after the previous owner was stripped in the store", c.pos(st), "", "ownership moves in the cache although stripping O from the previous owner failed or was skipped")
 			// values: loads after an `& ^ModeOwner` store
 			for _, key := range []string{"ModeWant", "ModeGiven"} {
